@@ -32,7 +32,7 @@ def differential(chk, scen, results):
     per = {}
     for l in out:
         w = l.split(' ', 2)
-        if len(w) >= 2 and w[0] in ('out', 'wrp', 'okq', 'BAD'):
+        if len(w) >= 2 and w[0] in ('out', 'wrp', 'okq', 'memo', 'BAD'):
             per.setdefault(w[1], []).append(l)
     nval = 0
     for k, (case, res) in enumerate(results):
@@ -57,6 +57,9 @@ def _distribution(chk, results):
             d['skipped_unpicklable'] = d.get('skipped_unpicklable', 0) + 1
             continue
         nh = sum(1 for h in res['hops'] if h['obs'] not in ('none', 'error'))
+        if res.get('memo_obs') is not None:
+            d['heap_model_payloads'] = d.get('heap_model_payloads', 0) + 1
+            d['heap_model_payloads_with_shared_object'] = d.get('heap_model_payloads_with_shared_object', 0) + int(bool(res.get('memo_shared')))
         if res.get('xproc'):
             d['cross_process_hops'] = d.get('cross_process_hops', 0) + nh
         d.setdefault('hops_done', {})
@@ -94,6 +97,12 @@ def _round(chk, scen, cases):
     chk.collect_monitors(results, {'C15'}, keyfn)
     differential(chk, scen, results)
     _distribution(chk, results)
+    # diagnosis: what the model side says about the cases on which a monitor fired
+    verdicts = {json.dumps(b['case'], sort_keys=True): b['verdict'] for b in chk.corr_breaks}
+    for v in chk.violations:
+        d = verdicts.get(json.dumps(v['case'], sort_keys=True))
+        if d and 'model:' not in v['detail']:
+            v['detail'] += ' || model: ' + d[:700]
     return results
 
 
